@@ -11,6 +11,7 @@ the proved model run on the same presentation of K, so that a law that holds "by
 wrong answers is still caught."""
 from common import *
 from mccheck import *
+from c04_extra import *
 LEVEL = 'proof'
 
 T = ('true',)
@@ -59,29 +60,35 @@ def q_x(logic, lang, f):
     return (logic, 'x:' + lang, f, None)
 
 
+def q_ops(logic, f, k):
+    """f built through the operator overloads &, |, ~ with raw str / bool shorthands (c04_extra.to_py_ops, choices from Random(k))"""
+    return (logic, 'ops:%d' % k, f, None)
+
+
 def eval_query(kd, q):
+    """a fresh Kripke object of kd (under kd['states']: identity-hashed objects, strings, tuples, ...) for every query; the answer is
+    reported in state NUMBERS (a returned element that is not a state of K - e.g. a copy of an identity-hashed state - is an error)"""
     logic, kind, f, text = q
     L = lang_module(logic)
-    K = kd_py(kd)
+    K, num = present(kd)
     if kind == 'obj':
         arg = to_py(f, L)
         r = call(lambda: L.modelcheck(K, arg))
     elif kind.startswith('x:'):
         arg = to_py(f, lang_module(kind[2:]))
         r = call(lambda: L.modelcheck(K, arg))
+    elif kind.startswith('ops:'):
+        r = call(lambda: to_py_ops(f, L, int(kind[4:])))
+        if r[0] == 'ok':
+            arg = r[1]
+            r = call(lambda: L.modelcheck(K, arg))
+        else:
+            r = ('err', 'building-with-operators:' + r[1])
     elif kind == 'text':
         r = call(lambda: L.modelcheck(K, text, parser=shared_parser(logic)))
     else:
         r = call(lambda: L.modelcheck(K, text))
-    if r[0] == 'ok':
-        v = r[1]
-        if not isinstance(v, set):
-            return ('err', 'other:not-a-set:' + type(v).__name__)
-        try:
-            return ('ok', sorted(v))
-        except TypeError:
-            return ('err', 'other:unsortable-result')
-    return r
+    return canon_answer(r, num)
 
 
 def model_cmd_q(ks, q):
@@ -97,8 +104,8 @@ def eval_chunk(chunk):
     """worker: [(kd, [query...])] -> [(kripke_sx, states, [answers])]"""
     out = []
     for kd, qs in chunk:
-        K = kd_py(kd)
-        out.append((kripke_sx(K), sorted(K.states()), [eval_query(kd, q) for q in qs]))
+        K, num = present(kd)
+        out.append((kripke_sx(K, num), sorted((num or (lambda v: v))(s) for s in K.states()), [eval_query(kd, q) for q in qs]))
     return out
 
 
@@ -339,7 +346,96 @@ def laws_stale(rng, f, g):
     return W
 
 
-FAMILIES = {'stale-fresh-looking-labels': laws_stale, 'PL': laws_pl, 'CTL': laws_ctl, 'LTL': laws_ltl, 'A-over-CTL-path': laws_tri, 'CTLS': laws_ctls}
+def rand_bool_comb(rng, parts, d):
+    """Boolean combination (not / and / or with 2-3 operands / implies) of the given parts and constants"""
+    if d == 0 or rng.random() < 0.25:
+        return rng.choice(parts) if rng.random() < 0.85 else rng.choice([T, FALSE])
+    t = rng.choice(['not', 'and', 'or', 'and', 'or', 'imp'])
+    if t == 'not':
+        return N(rand_bool_comb(rng, parts, d - 1))
+    k = 2 if t == 'imp' or rng.random() < 0.7 else 3
+    return (t,) + tuple(rand_bool_comb(rng, parts, d - 1) for _ in range(k))
+
+
+def laws_build(rng, frag, f, g):
+    """OTHER WAYS OF BUILDING the same formula.  frag 'PL' / 'CTL' / 'CTLS': f, g state formulas of the fragment; 'LTL': f, g LTL path
+    formulas (checked as A f by LTL and CTL*, as E f by CTL*).
+    (a) one-operand or/and nodes (the n-ary constructors accept them; And(f) is f): and1(f) = f = or1(f), under a negation, nested, as
+        operands of a wider node, sprinkled over a Boolean combination; intersection / union of ONE set;
+    (b) the operator overloads: f & g, f | g, ~f with raw str / bool shorthands on either side (Formula.__and__ / __rand__ / __or__ /
+        __ror__ / __invert__) give the set of the constructor-built formula and obey intersection / union / complement."""
+    W = Laws(rng, 'construction:' + frag, (f, g))
+    ident = lambda x: x
+    A_ = lambda x: ('A', x)
+    E_ = lambda x: ('E', x)
+    targets = {'PL': [('CTL', ident, 1), ('CTLS', ident, 1), ('LTL', A_, 0)], 'CTL': [('CTL', ident, 1), ('CTLS', ident, 1)],
+               'CTLS': [('CTLS', ident, 1)], 'LTL': [('LTL', A_, 0), ('CTLS', A_, 0), ('CTLS', E_, 0)]}[frag]
+    leaf = rng.choice(LEAVES)
+    for logic, wrap, state_level in targets:
+        tag = ':' + logic + ('' if wrap is ident else '(%s.)' % wrap(P)[0])
+        o = lambda x: q_obj(logic, wrap(x))
+        ops = lambda x: q_ops(logic, wrap(x), rng.randrange(10 ** 6))
+        # (a) one-operand nodes
+        W.eq('and1(f)=f' + tag, o(AND(f)), o(f))
+        W.eq('or1(f)=f' + tag, o(OR(f)), o(f))
+        W.eq('not(and1(f))=not(f)' + tag, o(N(AND(f))), o(N(f)))
+        W.eq('not(or1(f))=not(f)' + tag, o(N(OR(f))), o(N(f)))
+        W.eq('and(and1(f),or1(g))=and(f,g)' + tag, o(AND(AND(f), OR(g))), o(AND(f, g)))
+        W.eq('or(g,and1(or1(f)))=or(g,f)' + tag, o(OR(g, AND(OR(f)))), o(OR(g, f)))
+        light = (lambda z: tcount(z) <= 3) if frag == 'LTL' else (lambda z: True)      # the LTL tableau is exponential
+        x = gen_until(rng, lambda: rand_bool_comb(rng, [f, g, leaf], 1 if frag == 'LTL' else 2), light)
+        W.eq('sprinkled-one-operand-nodes' + tag, o(wrap1(rng, x, paths=frag in ('LTL', 'CTLS'))), o(x))
+        # (b) operator overloads
+        W.eq('f&g=And(f,g)' + tag, ops(AND(f, g)), o(AND(f, g)))
+        W.eq('f|g=Or(f,g)' + tag, ops(OR(f, g)), o(OR(f, g)))
+        W.eq('~f=Not(f)' + tag, ops(N(f)), o(N(f)))
+        W.eq('leaf&f=And(leaf,f)' + tag, ops(AND(leaf, f)), o(AND(leaf, f)))
+        W.eq('leaf|f=Or(leaf,f)' + tag, ops(OR(leaf, f)), o(OR(leaf, f)))
+        y = gen_until(rng, lambda: rand_bool_comb(rng, [f, g, leaf, P, QQ], 2), light)
+        W.eq('operators=constructors' + tag, ops(y), o(y))
+        if state_level:
+            W.add('and1' + tag, 'inter', o(AND(f)), [o(f)])
+            W.add('or1' + tag, 'union', o(OR(f)), [o(f)])
+            W.add('f&g' + tag, 'inter', ops(AND(f, g)), [o(f), o(g)])
+            W.add('g&f' + tag, 'inter', ops(AND(g, f)), [o(f), o(g)])
+            W.add('f|g' + tag, 'union', ops(OR(f, g)), [o(f), o(g)])
+            W.add('g|f' + tag, 'union', ops(OR(g, f)), [o(f), o(g)])
+            W.add('~f' + tag, 'compl', ops(N(f)), [o(f)])
+            W.add('leaf&f&g' + tag, 'inter', ops(AND(leaf, f, g)), [o(leaf), o(f), o(g)])
+            W.add('f|leaf|g' + tag, 'union', ops(OR(f, leaf, g)), [o(f), o(leaf), o(g)])
+            W.add('~(f&g)' + tag, 'cunion', ops(N(AND(f, g))), [o(f), o(N(g))])
+        elif wrap is A_:
+            W.add('A(f&g)' + tag, 'inter', ops(AND(f, g)), [o(f), o(g)])
+        else:
+            W.add('E(f|g)' + tag, 'union', ops(OR(f, g)), [o(f), o(g)])
+    # the same one-operand formula through another language module (cast)
+    if frag in ('PL', 'CTL'):
+        W.eq('cast:CTLS<-CTL:and1', q_x('CTLS', 'CTL', AND(f)), q_obj('CTL', f))
+        W.eq('cast:CTL<-CTLS:or1', q_x('CTL', 'CTLS', OR(f)), q_obj('CTL', f))
+        W.eq('agree:CTL=CTLS:and1', q_obj('CTL', AND(f)), q_obj('CTLS', AND(f)))
+    if frag == 'PL':
+        W.eq('cast:CTL<-PL:and1', q_x('CTL', 'PL', AND(OR(f))), q_obj('CTL', f))
+        W.eq('agree:CTL=LTL(A.):and1', q_obj('CTL', AND(f)), q_obj('LTL', ('A', AND(f))))
+        for op in rng.sample('XFGUR', 2):        # A op over one-operand nodes: all three checkers
+            a = QO('A', op, AND(f)) if op in 'XFG' else QO('A', op, OR(g), AND(f))
+            b = QO('A', op, f) if op in 'XFG' else QO('A', op, g, f)
+            for logic in ('CTL', 'LTL', 'CTLS'):
+                W.eq('A%s over one-operand nodes:%s' % (op, logic), q_obj(logic, a), q_obj(logic, b))
+    if frag == 'LTL':
+        W.eq('cast:CTLS<-LTL:and1', q_x('CTLS', 'LTL', ('A', AND(f))), q_obj('LTL', ('A', f)))
+        W.eq('agree:LTL=CTLS:or1', q_obj('LTL', ('A', OR(f))), q_obj('CTLS', ('A', OR(f))))
+    if frag == 'CTL':
+        q, op = rng.choice('AE'), rng.choice('XFGUR')
+        a = QO(q, op, AND(f)) if op in 'XFG' else QO(q, op, OR(g), AND(f))
+        b = QO(q, op, f) if op in 'XFG' else QO(q, op, g, f)
+        for logic in ('CTL', 'CTLS'):
+            W.eq('%s%s over one-operand nodes:%s' % (q, op, logic), q_obj(logic, a), q_obj(logic, b))
+            W.eq('%s%s over operators:%s' % (q, op, logic), q_ops(logic, QO(q, op, AND(f, g)) if op in 'XFG' else QO(q, op, OR(f, g), N(f)), rng.randrange(10 ** 6)),
+                 q_obj(logic, QO(q, op, AND(f, g)) if op in 'XFG' else QO(q, op, OR(f, g), N(f))))
+    return W
+
+
+FAMILIES = {'stale-fresh-looking-labels': laws_stale, 'PL': laws_pl, 'CTL': laws_ctl, 'LTL': laws_ltl, 'A-over-CTL-path': laws_tri, 'CTLS': laws_ctls, 'construction': laws_build}
 
 
 # ----------------------------------------------------------------------------------------
@@ -386,6 +482,11 @@ def gen_cases(R):
                 kd = rename_atoms_kd(kd, amap)
                 a = tuple(rename_atoms(x, amap) if isinstance(x, tuple) else x for x in args)
                 R.count('instances_with_multi_character_atom_names')
+            if nemit[0] % 5 == 2:
+                # states that are not 0..n-1: plain class instances hashed by IDENTITY (a checker that works on a copy of the structure must
+                # still answer with the states of K itself; some of them refuse to be copied), strings, tuples, mutually unorderable values
+                kd = dict(kd, states=STATE_KINDS[(nemit[0] // 5) % len(STATE_KINDS)])
+                R.count('instances_on_states_that_are_not_0..n-1')
             yield (kd, builder(rng, *a))
 
     pls = pl_pool()
@@ -395,6 +496,24 @@ def gen_cases(R):
     ops2 = path_formulas_ops(2)
     ops1_t = [g for g in ops1 if has_temporal(g)]
     ops2_t = [g for g in ops2 if has_temporal(g)]
+
+    # --- other ways of building the same formula: one-operand or/and nodes, operator overloads with raw str / bool shorthands
+    for f, g in ([(P, QQ), (QQ, T)] if th else [(P, QQ)]):
+        yield from emit(laws_build, ('PL', f, g), ks_for(30 if th else 9, 2))
+    yield from emit(laws_build, ('CTL', QO('E', 'X', P), QQ), ks_for(30 if th else 9, 2))
+    yield from emit(laws_build, ('LTL', ('G', P), ('F', QQ)), ks_for(12 if th else 4, 1))
+    for _ in range(120 if th else 10):
+        yield from emit(laws_build, ('PL', rand_pl(rng, rng.randint(0, 2)), rand_pl(rng, rng.randint(0, 2))), ks_for(1, 1))
+    for _ in range(250 if th else 16):
+        f = gen_until(rng, lambda: rand_ctl(rng, rng.randint(1, 2)), has_temporal)
+        yield from emit(laws_build, ('CTL', f, rand_ctl(rng, rng.randint(0, 2))), ks_for(1, 1))
+    for _ in range(150 if th else 8):
+        f, g = gen_until(rng, lambda: (rand_path(rng, rng.randint(1, 2)), rand_path(rng, 1)), lambda fg: has_temporal(fg[0]) and tcount(fg[0]) + tcount(fg[1]) <= 2)
+        yield from emit(laws_build, ('LTL', f, g), ks_for(1, 1, 4))
+    for _ in range(200 if th else 10):
+        f = gen_until(rng, lambda: rand_ctls_state(rng, rng.randint(1, 2)), lambda x: has_temporal(x) and tcount(x) <= 3)
+        g = gen_until(rng, lambda: rand_ctls_state(rng, rng.randint(0, 2)), lambda x: tcount(x) <= 2)
+        yield from emit(laws_build, ('CTLS', f, g), ks_for(1, 1, 4))
 
     # --- A/E over a CTL path formula with propositional operands: all three checkers.  Atom pairs on EVERY <= 2-state structure
     tri_pairs = [(P, QQ)] if not th else [(P, QQ), (QQ, P), (P, P), (T, QQ), (P, FALSE), (QQ, T)]
@@ -518,12 +637,16 @@ def evaluate(R, cases, record=True):
         for qi, q in enumerate(qs):
             R.evaluations += 1
             a, m = tuple(answers[qi]), model_ans[(ci, qi)]
-            R.count('queries_' + q[0] + ('' if q[1] == 'obj' else ':' + ('text' if q[1].startswith('text') else 'cast')))
+            R.count('queries_' + q[0] + ('' if q[1] == 'obj' else ':' + ('text' if q[1].startswith('text') else 'operators' if q[1].startswith('ops') else 'cast')))
+            if kd.get('states'):
+                R.count('queries_on_states_that_are_not_0..n-1:' + kd['states'])
+            if q[1] == 'obj' and has_unary_nary(q[2]):
+                R.count('queries_with_one_operand_or/and_nodes')
             if q[1] == 'text0':
                 R.count('text_queries_with_default_parser')
             if a != m:
                 wrong.add(qi)
-                bad_answers.append({'kind': 'answer', 'kripke': kd_json(kd), 'query': qjson(q), 'impl': a, 'model': m,
+                bad_answers.append({'kind': 'answer', 'kripke': kdj(kd), 'query': qjson(q), 'impl': a, 'model': m,
                                     'size': (n, fsize(q[2]))})
         for (name, rel, lhs, rhs) in W.items:
             la = answers[index[lhs]]
@@ -532,18 +655,18 @@ def evaluate(R, cases, record=True):
             fam = R.cov.setdefault('laws_checked', {})
             fam[name] = fam.get(name, 0) + 1
             if not relation_holds(rel, states, la, ras):
-                bad_laws.append({'kind': 'law', 'law': name, 'relation': rel, 'family': W.family, 'kripke': kd_json(kd),
+                bad_laws.append({'kind': 'law', 'law': name, 'relation': rel, 'family': W.family, 'kripke': kdj(kd),
                                  'params': [fstr(x) for x in W.params if x is not None],
                                  'lhs': qjson(lhs), 'rhs': [qjson(r) for r in rhs], 'states': states,
                                  'impl_lhs': la, 'impl_rhs': ras,
                                  'model_lhs': model_ans[(ci, index[lhs])], 'model_rhs': [model_ans[(ci, index[r])] for r in rhs],
                                  'size': (n, fsize(lhs[2]) + sum(fsize(r[2]) for r in rhs))})
             elif record and la[0] == 'ok' and 0 < len(la[1]) < n:
-                R.nontriv((json.dumps(kd_json(kd), sort_keys=True), name, lhs[2], tuple(r[2] for r in rhs)))
+                R.nontriv((json.dumps(kdj(kd), sort_keys=True), name, lhs[2], tuple(r[2] for r in rhs)))
                 nt = R.cov.setdefault('nontrivial_by_family', {})
                 nt[W.family] = nt.get(W.family, 0) + 1
                 if nt[W.family] == 1:
-                    R.sample({'law': name, 'relation': rel, 'kripke': kd_json(kd), 'lhs': qjson(lhs)['formula_str'],
+                    R.sample({'law': name, 'relation': rel, 'kripke': kdj(kd), 'lhs': qjson(lhs)['formula_str'],
                               'lhs_kind': lhs[1], 'lhs_text': lhs[3], 'rhs': [fstr(r[2]) for r in rhs],
                               'lhs_answer': la[1], 'rhs_answers': [r[1] for r in ras]})
     return bad_answers, bad_laws
@@ -558,7 +681,7 @@ def report(R, bad_answers, bad_laws, limit=12):
                 R.violation('semantic law fails on the implementation: %s (%s) with params %s' % (d['law'], d['relation'], d['params']), d)
             else:
                 try:
-                    d['reference'] = sorted(ref_check(kd_from_json(d['kripke']), detuple(d['query']['formula'])))
+                    d['reference'] = sorted(ref_check(kd_unj(d['kripke']), detuple(d['query']['formula'])))
                 except Exception as e:  # noqa
                     d['reference'] = 'ref-failed: %r' % e
                 R.violation('%s.modelcheck (%s) differs from the proved model on %s' % (d['query']['logic'], d['query']['kind'], d['query']['formula_str']), d)
@@ -609,8 +732,120 @@ def long_prefix_agreement(R):
     R.cov['long_prefix_agreement'] = {'differences': bad}
 
 
+# ----------------------------------------------------------------------------------------
+# large structures (implementation only: the extracted model needs minutes on 1500 states)
+# ----------------------------------------------------------------------------------------
+def laws_large(rng, f, g, nops):
+    """f, g propositional: A op(f, g) through all three checkers, E op(f, g) through CTL and CTL*, duality, one expansion, one text"""
+    W = Laws(rng, 'large', (f, g))
+    for op in sorted(rng.sample('XFGUR', nops)):
+        a = QO('A', op, f) if op in 'XFG' else QO('A', op, f, g)
+        e = ('E', a[1])
+        W.eq('agree3:CTL=LTL:A' + op, q_obj('CTL', a), q_obj('LTL', a))
+        W.eq('agree3:CTL=CTLS:A' + op, q_obj('CTL', a), q_obj('CTLS', a))
+        W.eq('agree:CTL=CTLS:E' + op, q_obj('CTL', e), q_obj('CTLS', e))
+        W.add('dual:CTL(A g)=compl CTLS(E not g)', 'compl', q_obj('CTL', a), [q_obj('CTLS', ('E', N(a[1])))])
+        W.add('dual:CTL(E g)=compl CTLS(A not g)', 'compl', q_obj('CTL', e), [q_obj('CTLS', ('A', N(a[1])))])
+        if op != 'X':
+            l, r = unfold_state(rng.choice('AE'), op, f, g)
+            W.eq('unfold:%s%s:CTL' % (l[0], op), q_obj('CTL', l), q_obj('CTL', r))
+    op = rng.choice('FGUR')
+    a = QO('A', op, f) if op in 'FG' else QO('A', op, f, g)
+    logic = rng.choice(['CTL', 'LTL', 'CTLS'])
+    W.eq('text:str(f):' + logic, (logic, 'text', a, star_text(a)), q_obj(logic, a))
+    W.add('not:CTL', 'compl', q_obj('CTL', N(f)), [q_obj('CTL', f)])
+    return W
+
+
+def large_chunk(chunk):
+    out = []
+    for spec, qs in chunk:
+        kd = large_kd(spec)
+        out.append([eval_query(kd, q) for q in qs])
+    return out
+
+
+def large_kd(spec):
+    kd = big_kd(spec['shape'], spec['n'], spec['lseed'])
+    if spec.get('states'):
+        kd['states'] = spec['states']
+    return kd
+
+
+def brief(a):
+    """answer on a large structure for a replay file: size and the smallest / largest members"""
+    if a[0] != 'ok':
+        return list(a)
+    return ['ok', {'size': len(a[1]), 'first': a[1][:5], 'last': a[1][-5:]}]
+
+
+def check_large(R, spec, W, answers, index, record=True):
+    n = spec['n']
+    states = list(range(n))
+    bad = []
+    for (name, rel, lhs, rhs) in W.items:
+        la, ras = answers[index[lhs]], [answers[index[r]] for r in rhs]
+        R.count('large_structure_law_instances')
+        if not relation_holds(rel, states, la, ras):
+            bad.append({'stream': 'large structures', 'kind': 'law', 'law': name, 'relation': rel, 'structure': spec,
+                        'params': [fstr(x) for x in W.params], 'lhs': qjson(lhs), 'rhs': [qjson(r) for r in rhs],
+                        'impl_lhs': brief(la), 'impl_rhs': [brief(r) for r in ras]})
+        elif record and 0 < len(la[1]) < n:
+            R.nontriv(('large', json.dumps(spec, sort_keys=True), name, lhs[2]))
+    return bad
+
+
+def large_structures(R):
+    """structures with more than 1000 states - deeper than the interpreter's recursion limit (chain into a self-loop, lasso, one cycle,
+    comb, ladder) or with a fan-out of more than 1000 (star) -, some with identity-hashed states: the checkers agree and obey the laws"""
+    rng = random.Random(R.seed + 4004)
+    th = R.thorough
+    specs = []
+    shapes = list(BIG_SHAPES)
+    rng.shuffle(shapes)
+    for i in range(18 if th else 6):
+        specs.append({'shape': shapes[i % len(shapes)], 'n': rng.randint(1050, 2600 if th else 1500), 'lseed': rng.randrange(10 ** 6),
+                      'states': [None, None, 'object'][i % 3]})
+    work = []
+    for spec in specs:
+        f, g = rng.choice([P, QQ, N(P), OR(P, N(QQ)), AND(QQ, N(P))]), rng.choice([P, QQ, N(QQ), T])
+        W = laws_large(rng, f, g, 5 if th else 2)
+        qs, index = [], {}
+        for (_, _, lhs, rhs) in W.items:
+            for q in [lhs] + rhs:
+                if q not in index:
+                    index[q] = len(qs)
+                    qs.append(q)
+        work.append((spec, W, qs, index))
+    t0 = time.time()
+    res = pmap_chunks(large_chunk, [(spec, qs) for spec, _, qs, _ in work], n_jobs(), per=1)
+    bad = []
+    for (spec, W, qs, index), answers in zip(work, res):
+        R.evaluations += len(qs)
+        bad += check_large(R, spec, W, answers, index)
+    for d in bad[:6]:
+        R.violation('semantic law fails on a LARGE structure: %s (%s) on %s' % (d['law'], d['relation'], d['structure']), d)
+    R.cov['large_structures'] = {'structures': [dict(s) for s in specs], 'failing_law_instances': len(bad), 'wall_s': round(time.time() - t0, 1)}
+
+
+def replay_large(R, d):
+    spec = d['structure']
+    kd = large_kd(spec)
+    qs = [qfromjson(d['lhs'])] + [qfromjson(j) for j in d['rhs']]
+    ans = [eval_query(kd, q) for q in qs]
+    print('structure:', spec)
+    for q, a in zip(qs, ans):
+        print('%-5s %-7s %s%s' % (q[0], q[1], fstr(q[2]), '' if q[3] is None else '   text=%r' % q[3]))
+        print('    impl :', brief(a))
+    ok = relation_holds(d['relation'], list(range(spec['n'])), ans[0], ans[1:])
+    print('law %s (%s) holds on the implementation: %s' % (d['law'], d['relation'], ok))
+    if not ok:
+        R.violation('replayed: law %s fails on a large structure' % d['law'], d)
+
+
 def run(R):
     long_prefix_agreement(R)
+    large_structures(R)
     R.rule = ('(K, law, f, g[, h]) instances: K = every structure with <= 2 states over {p,q} (all 148 used round-robin; the atom-pair instances '
               '[(p,q) in quick, 6 pairs / 3 pairs in thorough] of the three-checker family and of the CTL family run on ALL 148 of them) + random '
               'structures with 2..5 (6) states; formulas: propositional (depth <= 1 pool, random depth <= 3), CTL state formulas (depth-1 pool, random '
@@ -625,7 +860,20 @@ def run(R):
               'Kripke object - queries interleaved with edits of its owner (labels add/discard, replace_labelling_function with set/frozenset/list/shared '
               'containers, add_edge, new states) - with a pool of formula OBJECTS, each passed (the same object) to every checker it belongs to: equal sets, '
               'complement / intersection / union between pool members, each answer equal to the model on the structure as it is at the time of the call, '
-              'formula objects keep their trees, returned sets are cleared / polluted by the caller after being recorded')
+              'formula objects keep their trees, returned sets are cleared / polluted by the caller after being recorded. '
+              'CONSTRUCTION family (laws_build, on PL / CTL / LTL-path / CTL* operands): the same formula built in other ways goes through every '
+              'checker it belongs to - (a) ONE-OPERAND or/and nodes (And(f) = f = Or(f); under a negation, nested, as operands of a wider node, under '
+              'A/E op, sprinkled at random over a Boolean combination, cast between language modules; intersection / union of one set), '
+              '(b) the OPERATOR OVERLOADS f & g, f | g, ~f with raw str / bool shorthands on either side (so __and__, __rand__, __or__, __ror__, '
+              '__invert__ all run; n-ary nodes fold to the left; choices replayable from the seed in the query kind ops:<k>) - equal to the '
+              'constructor-built formula, intersection / union / complement of the operand sets, and equal to the proved model. '
+              'STATE PRESENTATIONS: one instance in five of EVERY family runs on a structure whose states are not 0..n-1: plain class instances hashed '
+              'by IDENTITY (Node; Resource additionally refuses copy / deepcopy / pickle), strings, tuples, mutually unorderable values, sparse ints; '
+              'answers are mapped back to state numbers, an element that is not one of the states of K itself is an error. '
+              'LARGE STRUCTURES (implementation only; the extracted model needs minutes there): 6 (thorough 18) structures with 1050..1500 (2600) '
+              'states - chain into a self-loop, lasso, one cycle, comb, ladder (deeper than the recursion limit) and a star (fan-out > 1000), states '
+              'and edges handed over in shuffled order, every third with identity-hashed states - A/E op over propositional operands: '
+              'CTL = LTL = CTL*, duality, one expansion, text = object, complement')
     gen = gen_cases(R)
     fams, structs = {}, {'small(<=2 states)': 0, 'random(3..6 states)': 0}
     bad_answers, bad_laws, texts = [], [], {}
@@ -642,6 +890,11 @@ def run(R):
         if len(texts) < 20000:
             collect_texts(cases, texts)
     R.cov['cases_by_family'] = fams
+    R.cov['second_audit_streams'] = {
+        'one-operand or/and nodes': 'families construction:* (and1/or1 laws, sprinkled nodes, casts, A/E op over one-operand nodes); counter queries_with_one_operand_or/and_nodes',
+        'operator overloads & | ~ with raw str/bool on either side': 'families construction:* (query kind ops:<k>); counters queries_<logic>:operators',
+        'states hashed by identity / not copyable / strings / tuples / unorderable': 'one instance in five of every family; counters queries_on_states_that_are_not_0..n-1:<kind>',
+        'structures with > 1000 states (deep, cyclic, wide)': 'large_structures (implementation-only laws); see large_structures'}
     R.cov['structures'] = structs
     tms = os.times()
     R.cov['cpu_s'] = round(tms.user + tms.system + tms.children_user + tms.children_system, 1)
@@ -657,9 +910,11 @@ def replay(R, data):
     d = data['data']
     if d.get('stream') == 'live structures':
         return replay_session(R, d)
-    kd = kd_from_json(d['kripke'])
-    K = kd_py(kd)
-    ks, states = kripke_sx(K), sorted(K.states())
+    if d.get('stream') == 'large structures':
+        return replay_large(R, d)
+    kd = kd_unj(d['kripke'])
+    K, num = present(kd)
+    ks, states = kripke_sx(K, num), sorted((num or (lambda v: v))(s) for s in K.states())
     if d.get('kind') == 'law':
         qs = [qfromjson(d['lhs'])] + [qfromjson(j) for j in d['rhs']]
     else:
